@@ -277,6 +277,17 @@ class World:
             setattr(pm.PyCdlib, name, functools.lru_cache(maxsize=self.cache)(f.__wrapped__))
         dm = importlib.import_module('pycdlib.dates')
         dm.string_to_timestruct.cache_clear()
+        # every other memo the library may keep at module or class level starts empty too: a run must not depend on
+        # what earlier runs of this worker process happened to look up
+        for mn, mod in list(sys.modules.items()):
+            if mn == 'pycdlib' or mn.startswith('pycdlib.'):
+                for obj in list(vars(mod).values()):
+                    if hasattr(obj, 'cache_clear') and callable(getattr(obj, 'cache_clear')):
+                        obj.cache_clear()
+                    elif isinstance(obj, type) and getattr(obj, '__module__', None) == mn:
+                        for sub in list(vars(obj).values()):
+                            if hasattr(sub, 'cache_clear') and callable(getattr(sub, 'cache_clear')):
+                                sub.cache_clear()
         # tuning knob behind pycdlib's guarded hook: the length at which a file is split into several extents
         if hasattr(pm, '_MAX_EXTENT_LENGTH'):
             self._saved.append((pm, '_MAX_EXTENT_LENGTH', pm._MAX_EXTENT_LENGTH))
